@@ -30,6 +30,10 @@ def run(ctx):
     n = edddmp.check_strict_sortedness(ctx, F)
     ctx.floor("E-DDDMP.strict", "sortedness predicates in dddmp::import", n, 2)
     nfn, _ = eunits.run(ctx, F, crates=("oxidd_dump",))
+    ctx.explain("E-UNITS.sized: a fixed-size table (vec![x; n]) that is addressed by a level / variable number of the manager "
+                "is sized by the manager's number of levels / variables -- not by a count taken from the file (the two "
+                "differ when the importing manager has more variables than the dump).")
+    ctx.floor("E-UNITS.sized", "level/variable-addressed tables of oxidd-dump", ctx.rule_counts.get("E-UNITS.sized", [0])[0], 2)
     ctx.floor("E-UNITS", "oxidd-dump bodies analysed", nfn, 60)
     st = elin.run(ctx, F, crates=("oxidd_dump",), skip_guard_table=True)
     ctx.floor("E-LIN", "oxidd-dump bodies analysed", st["bodies"], 100)
